@@ -892,7 +892,11 @@ def eval_call(engine, st, node):
             ext = engine.external(st, getattr(local.val, "__name__", name), _args(engine, st, node), node)
             if ext is not None:
                 return ext
-        if name in engine.contract.externals and local is None:
+        if name in engine.contract.externals and local is None and getattr(engine.contract.externals[name], "raw", False):
+            ext = engine.contract.externals[name](engine, st, None, node, {})
+            if ext is not None:
+                return ext
+        elif name in engine.contract.externals and local is None:
             ext = engine.external(st, name, _args(engine, st, node), node, _kwargs(engine, st, node))
             if ext is not None:
                 return ext
